@@ -213,8 +213,14 @@ fn main() {
                 let cases = streams::deep_none_cases(&mut rng, if o.tier == "thorough" { 60000 } else { 6000 });
                 run_rs_stream(&o, &mut rep, "deep-none", "a None that arises deep inside (missing field, index out of range, step into None, none literal, a field / index of the `facts` root when the whole input is None) under 1..5 enclosing operators, each applied with the None-valued expression in either operand position and an arbitrary pool value (including ones that alone would be a type error) in the other; the expected outcome (None / false / true) is computed from the property's rule and checked on the implementation alone, then against the model", false, cases, "full");
             }
+            if o.prop == "C02" || o.prop == "C03" {
+                run_rs_stream(&o, &mut rep, "compositions", "two operators stacked — every unary over every unary operator, every binary / lazy operator over a unary one on either side, every unary over a binary one — over the coercion pool (3 values per type, None) with 5 second operands: for C03 the type-error-ness of every outcome, for C02 the whole outcome", true, streams::composition_cases(), if o.prop == "C03" { "typeerr" } else { "full" });
+            }
             if o.prop == "C02" || o.prop == "C04" {
                 run_rs_stream(&o, &mut rep, "same-operand", "every binary / lazy operator with both operands resolving to ONE stored value (a op a, facts.a op a, a op b with equal values, :s op :s, w.0 op w.0, g(a) op g(a)) for every value of the boundary pool, None included", true, streams::same_operand_cases(o.tier == "thorough"), "full");
+            }
+            if o.prop == "C01" || o.prop == "C02" {
+                run_rs_stream(&o, &mut rep, "long-names", "references, symbols, functions, field steps and map keys whose names are 30 … 4094 bytes of 2- / 3- / 4-byte characters at every alignment, resolving and (one character longer) not resolving", false, streams::long_name_cases(), if o.prop == "C01" { "range" } else { "full" });
             }
             if o.prop == "C01" || o.prop == "C02" {
                 run_rs_stream(&o, &mut rep, "long-chains", "left-nested chains of 10 / 33 / 40 / 70 / 150 operands for every binary operator (one operator, or two of a family alternating) with a special operand (None, a type error, zero, an extreme, NaN) at the start, in the middle or at the end; lists and maps of that many items, access paths and unary towers up to 60 deep", false, streams::chain_cases(), if o.prop == "C01" { "range" } else { "full" });
@@ -251,6 +257,7 @@ fn main() {
         "C10" => {
             let big: Vec<rs::RsCase> = streams::chain_cases().into_iter().filter(|c| c.tag.starts_with("list") || c.tag.starts_with("map") || c.tag.starts_with("path")).collect();
             run_rs_stream(&o, &mut rep, "large-data", "lists and maps of 10 / 33 / 40 / 70 / 150 items built and indexed at the last and past-the-last position, key lookup in them, access paths of up to 60 alternating field / index steps into nested data and one step further", false, big, "full");
+            run_rs_stream(&o, &mut rep, "long-names", "references, symbols, functions, field steps and map keys whose names are 30 … 4094 bytes of 2- / 3- / 4-byte characters at every alignment, resolving and (one character longer) not resolving", false, streams::long_name_cases(), "full");
             let mut rng = rng::Rng::new(o.seed);
             let cases = streams::resolve_cases(&mut rng, o.tier == "thorough");
             run_rs_stream(&o, &mut rep, "paths", "7 inputs (nested maps/lists with near-miss keys: case variants, prefixes, the key `facts`, the empty key, top-level keys that contain a dot next to the data a path of that spelling reaches; non-map; None) x 20 bases (references, `facts`, symbols, unknown names, names containing a dot — also built through Expr::reff / Expr::symbol) x every access path of length <= 2 (thorough 3) over 11 steps (present/absent keys, indices len-1/len/len+1, wrong step kind) x symbol tables with re-registration; random longer paths", false, cases, "full");
